@@ -2,6 +2,7 @@
 use crate::cluster::*;
 use crate::codec::CodecKind;
 use crate::engine::*;
+use crate::ident::Id;
 use crate::ensure;
 use crate::sim::*;
 use foca::{OwnedNotification as N, State};
@@ -52,13 +53,55 @@ pub fn exec(case: &C02Case, out: &mut CaseOut) -> Result<(), Fail> {
     let spec = &case.spec;
     let n = spec.n as u64;
     let period = spec.period_us();
-    let (mut sim, t_done) = form(spec, safety)?;
+    // Besides the safety clause, every Feed is compared with what its sender knew when it sent it: a
+    // member the sender listed as active, other than the receiver, that is missing although it would
+    // still have fit. Not a violation by itself (no property demands maximal Feeds), but a stall that
+    // follows one is not the listed finding, whose mechanism is concurrent joins with complete Feeds.
+    let feed_gap: std::cell::RefCell<Option<String>> = std::cell::RefCell::new(None);
+    let codec = spec.codec;
+    let max_packet = spec.cfg.max_packet as usize;
+    let mut step = |sim: &Sim, info: &StepInfo| -> Result<(), Fail> {
+        safety(sim, info)?;
+        for (to, bytes) in &info.sent_bytes {
+            let Ok(d) = crate::wire::parse(bytes, codec) else { continue };
+            if d.header.message != foca::Message::Feed || feed_gap.borrow().is_some() {
+                continue;
+            }
+            let listed: Vec<Id> = d.members.iter().flatten().map(|m| *m.id()).collect();
+            for m in sim.nodes[info.node].inst.foca.iter_members() {
+                if m.id().addr == to.addr || listed.contains(m.id()) {
+                    continue;
+                }
+                let mut enc = Vec::new();
+                let _ = foca::Codec::encode_member(&mut crate::codec::AnyCodec(codec), m, &mut enc);
+                if bytes.len() + enc.len() <= max_packet {
+                    *feed_gap.borrow_mut() = Some(format!(
+                        "t={}us node{} sent a Feed to {} listing {:?} but not {} which it lists as active ({} of {} bytes used, the entry needs {})",
+                        info.t,
+                        info.node,
+                        to,
+                        listed,
+                        m.id(),
+                        bytes.len(),
+                        max_packet,
+                        enc.len()
+                    ));
+                    break;
+                }
+            }
+        }
+        Ok(())
+    };
+    crate::cluster::KEEP_SENT.with(|k| k.set(true));
+    let formed = form(spec, &mut step);
+    crate::cluster::KEEP_SENT.with(|k| k.set(false));
+    let (mut sim, t_done) = formed?;
     let deadline = t_done + (6 * n + 20) * period;
     let mut converged_at: Option<u64> = None;
     let mut t = t_done;
     while t < deadline {
         t += period / 2;
-        sim.run_until(t, safety)?;
+        sim.run_until(t, &mut step)?;
         if converged_at.is_none() && sim.fully_converged(true) {
             converged_at = Some(t);
         }
@@ -106,7 +149,10 @@ pub fn exec(case: &C02Case, out: &mut CaseOut) -> Result<(), Fail> {
                         })
                     })
                 });
-            let sig = if stall {
+            let gap = feed_gap.borrow().clone();
+            let sig = if (stall || no_room) && gap.is_some() {
+                "C02:discovery-stall-after-incomplete-feed"
+            } else if stall {
                 "C02:discovery-stall"
             } else if no_room {
                 "C02:discovery-stall-no-piggyback-room"
@@ -116,7 +162,7 @@ pub fn exec(case: &C02Case, out: &mut CaseOut) -> Result<(), Fail> {
             return Err(Fail::new(
                 sig,
                 format!(
-                    "{} members did not all discover each other within {} probe periods after the last join (periodic_announce {}, max_transmissions {}, backlogs drained: {}, updates in flight: {}, knowledge symmetric: {})\n{}",
+                    "{} members did not all discover each other within {} probe periods after the last join (periodic_announce {}, max_transmissions {}, backlogs drained: {}, updates in flight: {}, knowledge symmetric: {}){}\n{}",
                     n,
                     6 * n + 20,
                     if spec.cfg.periodic_announce.is_some() { "on" } else { "off" },
@@ -124,12 +170,16 @@ pub fn exec(case: &C02Case, out: &mut CaseOut) -> Result<(), Fail> {
                     drained,
                     in_flight,
                     symmetric,
+                    gap.map(|g| format!("\n a Feed left out a member its sender knew, with room to spare: {g}")).unwrap_or_default(),
                     sim.describe()
                 ),
             ));
         }
         out.max("convergence_periods_after_last_join", periods(converged_at.unwrap() - t_done));
         out.max("convergence_periods_per_member_x100", periods(converged_at.unwrap() - t_done) * 100 / n);
+    }
+    if feed_gap.borrow().is_some() {
+        out.class(if case.judge_discovery { "discovery_run_with_a_feed_that_left_out_a_known_member_with_room_to_spare" } else { "safety_only_run_with_a_feed_that_left_out_a_known_member_with_room_to_spare" });
     }
     // classification
     let non_first_seed = match &spec.formation {
@@ -276,7 +326,7 @@ pub fn run(ctx: &Ctx, report: &mut Report) -> EvidenceMeta {
     ctx.run_part(&LongRunPart, report);
     EvidenceMeta {
         level: "exploration",
-        rule: "deterministic discrete-event simulation of whole clusters, every input generated by proptest: n in 2..=12 (24 thorough), join instants, seed member of each joiner (any earlier member), per-message latency uniform in [1us, L] with L < probe_rtt/4, every instance's RNG seed, own starting incarnations 0..Incarnation::MAX (reached through refuted suspicions before the run), fan-out 1..3, max_transmissions 1..10, periodic gossip / announce on or off, probe_rtt/probe_period 0.2..0.8, packet size from 'feeds the whole cluster' to 1400 (part 2: from 'every header just fits' upward, safety clause only; part 3: clusters of 2..4 observed for 600 probe periods, safety clause only, so that wrapping counters are crossed), fixed- and variable-length identities; timers fire exactly on time, ties in Timer's documented order. Oracle at every event: no call returns an error, no MemberDown/Idle/Defunct/Rejoin, no record other than Alive in the acting node's iter_membership_state(); at T_last_join + (6n+20) probe periods every instance lists exactly every other identity as Alive. Non-convergence with periodic announce off, all backlogs drained, nothing in flight and symmetric knowledge is the listed known finding C02:discovery-stall; any other non-convergence is a violation. Non-trivial: n >= 3, a joiner used a non-first seed and every member completed probe rounds; distinct = (n, config class, join graph, message kinds, codec)."
+        rule: "deterministic discrete-event simulation of whole clusters, every input generated by proptest: n in 2..=12 (24 thorough), join instants, seed member of each joiner (any earlier member), per-message latency uniform in [1us, L] with L < probe_rtt/4, every instance's RNG seed, own starting incarnations 0..Incarnation::MAX (reached through refuted suspicions before the run), fan-out 1..3, max_transmissions 1..10, periodic gossip / announce on or off, probe_rtt/probe_period 0.2..0.8, packet size from 'feeds the whole cluster' to 1400 (part 2: from 'every header just fits' upward, safety clause only; part 3: clusters of 2..4 observed for 600 probe periods, safety clause only, so that wrapping counters are crossed), fixed- and variable-length identities; timers fire exactly on time, ties in Timer's documented order. Oracle at every event: no call returns an error, no MemberDown/Idle/Defunct/Rejoin, no record other than Alive in the acting node's iter_membership_state(); at T_last_join + (6n+20) probe periods every instance lists exactly every other identity as Alive. Non-convergence with periodic announce off, all backlogs drained, nothing in flight, symmetric knowledge and only complete Feeds during the run (no Feed left out a member its sender listed as active although the entry would still have fit) is the listed known finding C02:discovery-stall; any other non-convergence is a violation. Non-trivial: n >= 3, a joiner used a non-first seed and every member completed probe rounds; distinct = (n, config class, join graph, message kinds, codec)."
             .into(),
         assumptions: vec![
             "transport delivers every datagram within probe_rtt/4, timers fire exactly on time (the statement's premises)".into(),
